@@ -94,3 +94,61 @@ fn c18_adaptive_node_becomes_server_at_the_refresh_iff_not_firewalled() {
     kani::cover!(refresh_age == 900_000);
     core::mem::forget(a);
 }
+
+// =============================================================================================
+// C17 (and C06): Actor::put — a write is registered as in flight only if it was actually started
+// (or parked behind its lookup); a put that fails at once leaves nothing behind that a later put
+// for the same key would be compared with.
+// =============================================================================================
+static mut CACHED: bool = false;
+static mut START_OK: bool = true;
+static mut START_CALLS: u32 = 0;
+static mut GET_CALLS: u32 = 0;
+
+fn stub_cached_closest(_c: &mut Core, _target: &Id) -> Option<Box<[Node]>> {
+    if unsafe { CACHED } { Some(Box::new([])) } else { None }
+}
+fn stub_start(_q: &mut PutQuery, _s: &mut KrpcSocket, _nodes: &[Node]) -> Result<(), PutError> {
+    unsafe { START_CALLS += 1 };
+    if unsafe { START_OK } { Ok(()) } else { Err(PutError::Query(crate::core::PutQueryError::NoClosestNodes)) }
+}
+fn stub_get(_a: &mut Actor, request: GetRequestSpecific, _extra: Option<&[SocketAddrV4]>) -> Vec<Response> {
+    unsafe { GET_CALLS += 1 };
+    core::mem::forget(request);
+    Vec::new()
+}
+
+#[kani::proof]
+#[kani::unwind(66)]
+#[kani::stub(std::time::Instant::now, clock::mock_now)]
+#[kani::stub(std::time::Instant::elapsed, clock::mock_elapsed)]
+#[kani::stub(getrandom::fill, fill_const)]
+#[kani::stub(Core::get_cached_closest_nodes, stub_cached_closest)]
+#[kani::stub(PutQuery::start, stub_start)]
+#[kani::stub(Actor::get, stub_get)]
+fn c17_actor_put_registers_a_write_only_if_it_started() {
+    let mut a = actor(true);
+    let cached: bool = kani::any();
+    let start_ok: bool = kani::any();
+    unsafe {
+        CACHED = cached;
+        START_OK = start_ok;
+    }
+    let target = crate::core::verif_kani::id1(0x10);
+    let req = PutRequestSpecific::PutMutable(crate::common::PutMutableRequestArguments { target, v: Box::new([1]), k: [1; 32], seq: 3, sig: [2; 64], salt: None, cas: None });
+    let r = a.put(req, None);
+    let registered = a.core.put_queries.a.is_some() || a.core.put_queries.b.is_some();
+    if cached {
+        assert!(unsafe { START_CALLS } == 1 && unsafe { GET_CALLS } == 0, "fresh cached closest nodes: the store requests are sent at once");
+        assert!(r.is_ok() == start_ok, "C06/C08: a put that could not be started fails at once");
+        assert!(registered == start_ok, "C17: a put that failed at once is not left registered as in flight (a later put for the same key must not be compared with it)");
+    } else {
+        assert!(unsafe { GET_CALLS } == 1 && unsafe { START_CALLS } == 0, "no cached nodes: a lookup is started and the put waits for it");
+        assert!(r.is_ok() && registered, "C17: the waiting put is registered, so that a concurrent put for the same key is compared with it");
+    }
+    kani::cover!(cached && !start_ok);
+    kani::cover!(cached && start_ok);
+    kani::cover!(!cached);
+    core::mem::forget(r);
+    core::mem::forget(a);
+}
